@@ -4,3 +4,4 @@ import Driver.Ops.Reply
 import Driver.Ops.Proxy
 import Driver.Ops.Envelope
 import Driver.Ops.Policy
+import Driver.Ops.Store
